@@ -58,6 +58,12 @@ class Ptr:
     def add(self, n):
         return Ptr(self.buf, self.off + int(n) * self.esz, self.esz)
 
+    def sub(self, n):
+        return Ptr(self.buf, self.off - int(n) * self.esz, self.esz)
+
+    def offset(self, n):
+        return self.add(n)
+
     def cast(self, ty):
         if ty == "_":
             return self
